@@ -408,6 +408,21 @@ func (m *Machine) callBuiltin(th *Thread, name string, args []Value, caller *Fra
 				v.index, v.symKeys = nil, 0
 			}
 			return nil
+		case *SliceV:
+			if v.IsNil() {
+				return nil
+			}
+			if v.slen != nil {
+				m.unsupported("clear of a lazily sized slice")
+			}
+			at, ok := v.arr.typ.Underlying().(*types.Array)
+			if !ok {
+				m.unsupported("clear: backing object of type %s", v.arr.typ)
+			}
+			for i := 0; i < v.len; i++ {
+				m.store(&Ptr{obj: v.arr, path: []int{v.off + i}}, zeroValue(at.Elem()))
+			}
+			return nil
 		}
 	case "builtin:ssa:wrapnilchk":
 		if p, ok := args[0].(*Ptr); ok && p.IsNil() {
